@@ -147,7 +147,7 @@ private def sysLine (isInt isProg : Bool) (hist : String) (nums : List Int) (res
         (if isInt then (match A, R with | p0 :: _, r0 :: _ => decide (0 ≤ r0) && decide (r0 < p0) | _, _ => false)
          else canonical A R && A.all (fun p => decide (2 ≤ p)) && B.all (fun p => decide (2 ≤ p)))
       if !pre then "PRE" else
-      let expectLen := if isInt then 3 * n + 2 else 3 * n + 1
+      let expectLen := if isInt then 3 * n + 3 else 3 * n + 2
       if res.length != expectLen then "BAD result | " ++ line else
       let x := res.getD 0 0
       let ms := (res.drop 1).take n
@@ -155,9 +155,13 @@ private def sysLine (isInt isProg : Bool) (hist : String) (nums : List Int) (res
       let ts := (res.drop (2 * n)).take n
       let prodI := res.getD (3 * n) 0
       let y := res.getD (if isInt then 3 * n + 1 else 3 * n) 0
+      -- accessor agreements (NumOfPrimes/size, Primes, ith, reciprocal, MixedRadixToRing, RnsToRing from another container):
+      -- in the model these are projections of the state the other outputs are computed from, so every bit is expected
+      let acc := res.getD (if isInt then 3 * n + 2 else 3 * n + 1) 0
+      let accOk := acc == 63
       -- specification
       let M := prod A
-      let specOk := crtChk A R x && digitsChk A ms x && ckChk A cs && residuesChk A a ts && y == a % M &&
+      let specOk := accOk && crtChk A R x && digitsChk A ms x && ckChk A cs && residuesChk A a ts && y == a % M &&
         (if isInt then prodI == M else cs.all (fun c => decide (0 ≤ c)) && ((A.drop 1).zip cs).all (fun pc => decide (pc.2 < pc.1)))
       -- model
       if isInt then
@@ -186,18 +190,60 @@ private def sysLine (isInt isProg : Bool) (hist : String) (nums : List Int) (res
           let modelOk := mx == x && mm == ms && mc.drop 1 == cs && mt == ts && my == y
           verdict specOk modelOk s!"{hexInt mx} {showL mm} {showL (mc.drop 1)} {showL mt} {hexInt my}" line
 
-private def fixedLine (nums res : List Int) (line : String) : String :=
+/-- history of an `RNSsystemFixed` object -/
+private def fixedHist (A R : List Int) : List Char → Option FixedSys → Option FixedSys
+  | [], s => s
+  | op :: ops, s =>
+    let next : Option FixedSys :=
+      match op, s with
+      | 'D', _ => some (FixedSys.ofPrimes cof A)
+      | 'q', some c => some (c.rnsToRing cof R).1
+      | 'A', some c => some (FixedSys.assign FixedSys.empty c)
+      | 'C', some c => some c.copy
+      | 'K', some c => some c
+      | _, _ => none
+    match next with
+    | none => none
+    | some n => fixedHist A R ops (some n)
+
+/-- `L s_0 e.. s_1 e.. …` -/
+private def parseLevels : Nat → List Int → Option (List (List Int) × List Int)
+  | 0, rest => some ([], rest)
+  | k + 1, rest =>
+    match takeCounted rest with
+    | none => none
+    | some (lev, rest2) =>
+      match parseLevels k rest2 with
+      | none => none
+      | some (levs, rest3) => some (lev :: levs, rest3)
+
+private def fixedLine (hist : String) (nums res : List Int) (line : String) : String :=
   match takeCounted nums with
   | none => "BAD args | " ++ line
   | some (A, R) =>
-    if R.length != A.length then "BAD args | " ++ line else
-    if !(A.length ≥ 1 && allPos A && pairwiseCoprime A && canonical A R && A.all (fun p => decide (2 ≤ p))) then "PRE" else
+    let n := A.length
+    if R.length != n then "BAD args | " ++ line else
+    if !(n ≥ 1 && allPos A && pairwiseCoprime A && canonical A R && A.all (fun p => decide (2 ≤ p))) then "PRE" else
     match res with
-    | [x] =>
-      -- no separate model of the tree recombination: the model is the verified Garner conversion
-      let s := RnsSys.ofPrimes A
-      let mx := (s.rnsToRing cof R).2
-      verdict (crtChk A R x) (mx == x) (hexInt mx) line
+    | x :: nl :: rest =>
+      if nl < 0 then "BAD result | " ++ line else
+      match parseLevels nl.toNat rest with
+      | none => "BAD result | " ++ line
+      | some (tree, rest2) =>
+        if rest2.length != n + 2 then "BAD result | " ++ line else
+        let sz := rest2.getD 0 0
+        let iths := (rest2.drop 1).take n
+        let x' := rest2.getD (n + 1) 0
+        match fixedHist A R hist.toList none with
+        | none => "BAD hist | " ++ line
+        | some s =>
+          let mx := (s.rnsToRing cof R).2
+          let mIth := (List.range n).map s.ith
+          -- the property speaks about the conversion; the table, `size()` and `ith()` are compared with the model of the code
+          -- (which returns the number of levels / the overwritten slots), and with the verified Garner conversion on the same input
+          let gx := ((RnsSys.ofPrimes A).rnsToRing cof R).2
+          let modelOk := mx == x && s.tree == tree && (s.size : Int) == sz && mIth == iths && gx == x
+          verdict (crtChk A R x && x' == x) modelOk s!"{hexInt mx} size={s.size} tree={tree == s.tree}" line
     | _ => "BAD result | " ++ line
 
 private def craLine (hist : String) (nums res : List Int) (line : String) : String :=
@@ -223,15 +269,17 @@ private def pcrtLine (hist : String) (nums res : List Int) (line : String) : Str
       if !(n ≥ 1 && decide (2 ≤ p) && canonical Pm as && canonical Pm rs && distinctMod p as) then "PRE" else
       match takeCounted res with
       | none => "BAD result | " ++ line
-      | some (P, ts) =>
-        if ts.length != n then "BAD result | " ++ line else
+      | some (P, tsAcc) =>
+        if tsAcc.length != n + 1 then "BAD result | " ++ line else
+        let ts := tsAcc.take n
+        let accOk := tsAcc.getD n 0 == 63
         match polyHist p as rs hist.toList none with
         | none => "BAD hist | " ++ line
         | some s =>
           let (s1, mP) := s.rnsToRing cof rs
           let mN := polyNorm mP
           let mt := s1.toRns mP
-          verdict (polyChk p as rs P && ts == rs) (mN == P && mt == ts) s!"{hexNat mN.length} {showL mN} {showL mt}" line
+          verdict (accOk && polyChk p as rs P && ts == rs) (mN == P && mt == ts) s!"{hexNat mN.length} {showL mN} {showL mt}" line
   | _ => "BAD args | " ++ line
 
 /-- `prt.<dom> hist p n a.. k c.. = t.. k' c'..`: RingToRns of a polynomial, then RnsToRing -/
@@ -284,7 +332,7 @@ def crtLine (line : String) : String :=
         else if key == "mirns" then sysLine true true hist nums rs line
         else if key.startsWith "mrns." then sysLine false true hist nums rs line
         else if key.startsWith "prt." then prtLine hist nums rs line
-        else if key == "fixed" then fixedLine nums rs line
+        else if key == "fixed" then fixedLine hist nums rs line
         else if key.startsWith "cra." then craLine hist nums rs line
         else if key.startsWith "pcrt." then pcrtLine hist nums rs line
         else "BAD key | " ++ line
